@@ -190,6 +190,17 @@ def simulate(spec, progs=True):
             deps[n] = names_in(fn) & set(pars)
         else:
             deps[n] = set()
+    post = set()
+    for n, p in pars.items():
+        if p.get("fn") and not p["fn"].startswith(AGG) and any("___" in nm for nm in names_in(p["fn"])):
+            post.add(n)
+    grew = True
+    while grew:
+        grew = False
+        for n in pars:
+            if n not in post and deps[n] & post:
+                post.add(n)
+                grew = True
     done = set()
     while len(order) < len(pars):
         progress = False
@@ -200,6 +211,21 @@ def simulate(spec, progs=True):
                 progress = True
         if not progress:
             raise ValueError("cyclic parameter dependencies")
+
+    scen = {(sc_["par"], sc_["pop"]): sc_ for sc_ in spec.get("scen", [])}
+
+    def data_value(p, pop, t):
+        """databook value at t, or the scenario overwrite from its first year onward (scenario values are data: they are scaled by the calibration factors too)"""
+        sc_ = scen.get((p["name"], pop))
+        if sc_ is not None and t >= min(sc_["t"]):
+            ov = {"t": list(sc_["t"]), "v": list(sc_["y"])}
+            return interp_previous(ov, t) if sc_.get("interp") == "previous" else interp_linear(ov, t)
+        v = vfor(p.get("val"), pop)
+        return None if v is None else interp_linear(v, t)
+
+    def suspended(p, pop, t):
+        sc_ = scen.get((p["name"], pop))
+        return sc_ is not None and t >= min(sc_["t"])
 
     def scale(p, pop):
         yf = p.get("yf", 1.0)
@@ -313,10 +339,13 @@ def simulate(spec, progs=True):
             fn = p.get("fn")
             is_agg = bool(fn and fn.startswith(AGG))
             for pop in pops:
-                v = None
-                if p.get("val") is not None and vfor(p["val"], pop) is not None:
-                    v = interp_linear(vfor(p["val"], pop), t) * scale(p, pop)
-                if fn and not is_agg:
+                v = data_value(p, pop, t)
+                if v is not None:
+                    v = v * scale(p, pop)
+                if n in post:
+                    pval[(pop, n)] = None
+                    continue
+                if fn and not is_agg and not suspended(p, pop, t):
                     env = dict(t=t, dt=dt)
                     for nm in names_in(fn):
                         if nm in ("t", "dt"):
@@ -329,7 +358,7 @@ def simulate(spec, progs=True):
                             env[nm] = total(pop, nm)
                         else:
                             raise ValueError("unknown name " + nm)
-                    v = scale(p, pop) * ev(ast.parse(fn, mode="eval"), env)
+                    v = scale(p, pop) * ev(ast.parse(fn.replace(":", "___"), mode="eval"), env)
                 if active and (n, pop) in covouts:
                     co = covouts[(n, pop)]
                     v = covout_outcome(co, cov)
@@ -371,7 +400,8 @@ def simulate(spec, progs=True):
                         v = num / den if den != 0 else num
                     else:
                         v = num
-                    pval[(pop, n)] = scale(p, pop) * v
+                    if not suspended(p, pop, t):
+                        pval[(pop, n)] = scale(p, pop) * v
             for pop in pops:
                 if pval[(pop, n)] is not None:
                     pval[(pop, n)] = clip(p, pval[(pop, n)])
@@ -529,7 +559,39 @@ def simulate(spec, progs=True):
                 flow.update(split_junction(pop, j, inflow))
         return flow
 
+    def eval_post(i, flow):
+        """output-only parameters: functions of this step's flows (people per year), evaluated after the flows are known"""
+        t = T[i]
+        for n in order:
+            if n not in post:
+                continue
+            p = pars[n]
+            for pop in pops:
+                env = dict(t=t, dt=dt)
+                for nm in names_in(p["fn"]):
+                    if nm in ("t", "dt"):
+                        continue
+                    if "___" in nm:
+                        parts = nm.split("___")
+                        src, dst = parts[0], parts[1] if len(parts) > 1 else ""
+                        tot = 0.0
+                        for l in links:
+                            if l["pop"] == pop and (not src or l["src"] == src) and (not dst or l["dst"] == dst) and l["key"] in flow:
+                                f = flow[l["key"]]
+                                tot += math.fsum(f) if isinstance(f, list) else f
+                        env[nm] = tot / dt
+                    elif nm in pars:
+                        env[nm] = pval[(pop, nm)]
+                    elif nm in characs:
+                        env[nm] = charac_val(pop, nm)
+                    else:
+                        env[nm] = total(pop, nm)
+                v = scale(p, pop) * ev(ast.parse(p["fn"].replace(":", "___"), mode="eval"), env)
+                pval[(pop, n)] = clip(p, v)
+
     def record(i, flow):
+        if post:
+            eval_post(i, flow)
         for pop in pops:
             for c in spec["comps"]:
                 n = c["name"]
